@@ -146,12 +146,16 @@ FunctorManager::Env FunctorManager::createEnv(Context& caller, unsigned id, cons
 
   assert(entry.functor->params.size() == pvals.size());
 
+  /* the env owns the context from now: when the evaluation of an argument
+   * throws, the context returns to the cache instead of being lost */
+  Env env(entry, _ctx);
+
   /* bind parameter values ​​to variables for all symbols */
   unsigned i = 0;
   for (const Symbol& symbol : entry.functor->params)
     VariableExpression(symbol).store(*_ctx, caller, pvals[i++]);
 
-  return Env(entry, _ctx);
+  return env;
 }
 
 }
